@@ -1848,6 +1848,14 @@ pub fn f19() -> Vec<Case> {
             out.push(case("F19", format!("fb-return:output-binding:return-inside-{depth}"), p, 4, true));
         }
     }
+    // `RETURN expr;` hands the value over like an assignment to the result variable (tag)
+    for (t, e) in [(Ty::SInt, "5"), (Ty::Int, "5"), (Ty::UInt, "5"), (Ty::LInt, "5"), (Ty::Real, "1.5"), (Ty::DInt, "a"), (Ty::LReal, "a")] {
+        let b = t.name();
+        let text = format!("FUNCTION Fr : {b}\nVAR_INPUT a : INT; END_VAR\n    RETURN {e};\nEND_FUNCTION\nFUNCTION_BLOCK Hm\nMETHOD PUBLIC M : {b}\nVAR_INPUT a : INT; END_VAR\n    RETURN {e};\nEND_METHOD\nEND_FUNCTION_BLOCK\nPROGRAM Main\nVAR r : {b}; m : {b}; h : Hm; END_VAR\n    r := Fr(INT#3);\n    m := h.M(a := INT#3);\nEND_PROGRAM\n");
+        let mut c = raw("F19", &format!("return-expression:{b}:{}", if e == "a" { "narrower-variable" } else { "untyped-literal" }), &text, 2);
+        c.prog.vars = vec![Decl::new("r", t), Decl::new("m", t)];
+        out.push(c);
+    }
     out.push(raw(
         "F19",
         "en-false:then-call-through-using",
